@@ -528,3 +528,147 @@ def flatten_self_calls(fnode, methods, keep=(), depth=2):
                 n.lineno = fnode.lineno + 1 + i
                 n.end_lineno = n.lineno
     return new
+
+
+# ---------------------------------------------------------------- helpers that did not exist on the pinned tree are read in place
+
+def inline_new_helpers(fnode, callables, depth=2):
+    """A copy of `fnode` in which every STATEMENT that is a call of a helper in `callables` (name -> (FunctionDef, kind), kind 'method' / 'static' / 'func'; written
+    `self.name(..)` resp. `name(..)`), alone (`self.h(a)`), assigned (`x = self.h(a)`) or returned, is replaced by the helper's body - at any nesting depth of the
+    caller.  Parameters that are given a plain name / attribute / constant are substituted; other arguments are bound to `name$param` first; the helper's locals get
+    the prefix `name$`.  A helper qualifies when it returns only in its last statement (or not at all), does not yield and defines nothing nested.  Returns
+    `fnode` itself when nothing was inlined."""
+    import copy
+
+    def simple(m):
+        body = [s for s in m.body if not (isinstance(s, ast.Expr) and isinstance(s.value, ast.Constant))]
+        if not body:
+            return None
+        last_ret = isinstance(body[-1], ast.Return)
+        for s in (body[:-1] if last_ret else body):
+            for n in ast.walk(s):
+                if isinstance(n, (ast.Return, ast.FunctionDef, ast.AsyncFunctionDef, ast.Lambda, ast.Yield, ast.YieldFrom, ast.ClassDef, ast.Global, ast.Nonlocal)):
+                    return None
+        return body
+
+    def callee_of(call):
+        if not isinstance(call, ast.Call) or any(isinstance(a, ast.Starred) for a in call.args) or any(k.arg is None for k in call.keywords):
+            return None
+        fn = call.func
+        if isinstance(fn, ast.Attribute) and isinstance(fn.value, ast.Name) and fn.value.id in ('self', 'cls') and fn.attr in callables and callables[fn.attr][1] in ('method', 'static'):
+            return callables[fn.attr]
+        if isinstance(fn, ast.Name) and fn.id in callables and callables[fn.id][1] == 'func':
+            return callables[fn.id]
+        return None
+
+    def pure(e):
+        if isinstance(e, (ast.Name, ast.Constant)):
+            return True
+        if isinstance(e, ast.Attribute):
+            return pure(e.value)
+        if isinstance(e, ast.Subscript):
+            return pure(e.value) and isinstance(e.slice, ast.Constant)
+        return False
+    changed = [False]
+
+    def expand(st, level):
+        call = st.value if isinstance(st, (ast.Assign, ast.Return, ast.Expr)) else None
+        got = callee_of(call)
+        if got is None or level <= 0:
+            return [st]
+        m, kind = got
+        if m is fnode or m.name == fnode.name:
+            return [st]
+        body = simple(m)
+        if body is None:
+            return [st]
+        a = m.args
+        names = [x.arg for x in a.posonlyargs + a.args]
+        if kind == 'method' and names:
+            names = names[1:]
+        if a.vararg or a.kwarg or a.kwonlyargs:
+            return [st]
+        defaults = dict(zip(reversed(names), reversed(a.defaults)))
+        bound = {}
+        for n_, v in zip(names, call.args):
+            bound[n_] = v
+        if len(call.args) > len(names):
+            return [st]
+        for k in call.keywords:
+            if k.arg not in names or k.arg in bound:
+                return [st]
+            bound[k.arg] = k.value
+        for n_ in names:
+            if n_ not in bound:
+                if n_ not in defaults:
+                    return [st]
+                bound[n_] = defaults[n_]
+        prefix = m.name + '$'
+        stored = set()
+        for s in body:
+            for n in ast.walk(s):
+                if isinstance(n, ast.Name) and isinstance(n.ctx, (ast.Store, ast.Del)):
+                    stored.add(n.id)
+        direct = {n_: bound[n_] for n_ in names if pure(bound[n_]) and n_ not in stored}
+        locals_ = (set(names) | stored) - set(direct)
+        # `a, b = helper(..)` with `return p, q` (plain locals of the helper): the helper's p, q ARE the caller's a, b - no alias layer in between
+        last_ret_ = isinstance(body[-1], ast.Return) and body[-1].value is not None
+        as_target = {}
+        if isinstance(st, ast.Assign) and len(st.targets) == 1 and last_ret_:
+            tg, rv_ = st.targets[0], body[-1].value
+            pairs = list(zip(tg.elts, rv_.elts)) if isinstance(tg, ast.Tuple) and isinstance(rv_, ast.Tuple) and len(tg.elts) == len(rv_.elts) else [(tg, rv_)]
+            if all(isinstance(t_, ast.Name) and isinstance(r_, ast.Name) and r_.id in stored and r_.id not in names for t_, r_ in pairs) and \
+                    len({r_.id for _, r_ in pairs}) == len(pairs):
+                as_target = {r_.id: t_.id for t_, r_ in pairs}
+
+        class Ren(ast.NodeTransformer):
+            def visit_Name(self, n):
+                if n.id in direct and isinstance(n.ctx, ast.Load):
+                    return ast.copy_location(copy.deepcopy(direct[n.id]), n)
+                if n.id in as_target:
+                    return ast.copy_location(ast.Name(as_target[n.id], n.ctx), n)
+                if n.id in locals_:
+                    return ast.copy_location(ast.Name(prefix + n.id, n.ctx), n)
+                return n
+        out = []
+        for n_ in names:
+            if n_ not in direct:
+                out.append(ast.copy_location(ast.Assign([ast.Name(prefix + n_, ast.Store())], copy.deepcopy(bound[n_])), st))
+        last_ret = isinstance(body[-1], ast.Return)
+        for s in (body[:-1] if last_ret else body):
+            out.append(ast.copy_location(Ren().visit(copy.deepcopy(s)), st))
+        ret = Ren().visit(copy.deepcopy(body[-1].value)) if last_ret and body[-1].value is not None else None
+        if isinstance(st, ast.Assign):
+            if ret is None:
+                return [st]
+            if not as_target:
+                out.append(ast.copy_location(ast.Assign(copy.deepcopy(st.targets), ret), st))
+        elif isinstance(st, ast.Return):
+            out.append(ast.copy_location(ast.Return(ret), st))
+        elif ret is not None and not isinstance(ret, (ast.Name, ast.Constant)):
+            out.append(ast.copy_location(ast.Expr(ret), st))
+        changed[0] = True
+        res = []
+        for s in out:
+            res += expand(s, level - 1)
+        for s in res:
+            for n in ast.walk(s):
+                if not hasattr(n, 'lineno'):
+                    ast.copy_location(n, st)
+            ast.fix_missing_locations(s)
+        return res
+
+    def walk_block(block):
+        new = []
+        for st in block:
+            for fld in ('body', 'orelse', 'finalbody'):
+                b = getattr(st, fld, None)
+                if isinstance(b, list) and b and isinstance(b[0], ast.stmt) and not isinstance(st, (ast.FunctionDef, ast.AsyncFunctionDef, ast.ClassDef)):
+                    setattr(st, fld, walk_block(b))
+            for h in getattr(st, 'handlers', []) or []:
+                h.body = walk_block(h.body)
+            new += expand(st, depth)
+        return new
+    node = copy.deepcopy(fnode)
+    node.body = walk_block(node.body)
+    return node if changed[0] else fnode
